@@ -515,4 +515,23 @@ def _big_bits_and_dependent_bits(ctx):
         check_flag_exact(ctx, enum.IntFlag("KI", {"A": 1, "BCD": 14}), "dependent-bits-intflag", MODES[:2])
 
 
-DIRECTED = {"unhashable-members": _unhashable_members, "big-bits-and-dependent-bits": _big_bits_and_dependent_bits, "lookalike-classes-through-one-provider": _lookalike_classes_through_one_provider, "documented-refusals": _refusals, "zero-member-multibit-unhashable": _witnesses, "str-subclass-is-a-str": _str_subclass_is_a_str}
+def _bits_without_a_single_bit_name(ctx):
+    """Known finding: flag_by_member_names(allow_compound=False) on a flag whose bits exist only inside multi-bit members (READ = 1,
+    WRITE_DELETE = 6): the dumper may use single-bit names only, finds none for bits 2 and 4 and DROPS them silently - dump(WRITE_DELETE)
+    == [], which loads as the zero flag. (allow_compound=True is a bijection on the same class and is checked as such.)"""
+    for cls in (enum.Flag("Access", {"READ": 1, "WRITE_DELETE": 6}), enum.IntFlag("AccessI", {"R": 1, "WX": 6, "ALL": 7})):
+        multi = [m for m in cls.__members__.values() if m.value & (m.value - 1)]
+        for compound in (False, True):
+            for dt, sc in MODES[:2]:
+                r = make_retort(dt, sc, [flag_by_member_names(allow_compound=compound)])
+                for x in [*multi, cls(1) | multi[0]]:
+                    d = attempt(r.dump, x, cls)
+                    back = attempt(r.load, d.value, cls) if d.kind == "ok" else d
+                    ctx.evaluated(("bits-without-a-name", cls.__name__, compound, x.value, dt.name, sc), nontrivial=True)
+                    ctx.count("flag_roundtrips")
+                    if back.kind != "ok" or back.value != x:
+                        key = "not-a-bijection:flag_by_member_names:bits-without-a-single-bit-name" if not compound else "not-a-bijection:flag_by_member_names:dependent-bits"
+                        ctx.violation(key, f"allow_compound={compound} on {cls.__name__}: {x!r} -> {d!r:.100} -> {back!r:.100}", {"class": cls.__name__, "allow_compound": compound})
+
+
+DIRECTED = {"bits-without-a-single-bit-name": _bits_without_a_single_bit_name, "unhashable-members": _unhashable_members, "big-bits-and-dependent-bits": _big_bits_and_dependent_bits, "lookalike-classes-through-one-provider": _lookalike_classes_through_one_provider, "documented-refusals": _refusals, "zero-member-multibit-unhashable": _witnesses, "str-subclass-is-a-str": _str_subclass_is_a_str}
